@@ -163,6 +163,17 @@ EpochManager::RemoveOutDatedLists(  //
   auto *current = protected_lists_;
   while (current->next != nullptr) {
     const auto upper_bits = current->GetUpperBits();
+
+    // a reservation may be published for an epoch whose node has already been removed
+    // (its owner re-validates and moves on), so ignore protected epochs without nodes
+    while (protected_epoch > upper_bits) {
+      if (++it == it_end) {
+        protected_epoch = kMinEpoch;
+        break;
+      }
+      protected_epoch = *it & kUpperMask;
+    }
+
     if (protected_epoch == upper_bits) {
       // this node is still referred, so skip
       prev = current;
